@@ -1,4 +1,5 @@
 import BearVerif.Core.Door
+import BearVerif.Lemmas.BearCompile
 /-!
   Helper lemmas for C19 (`Props/C19.lean`): the sequential combinators, the meaning of
   ignorable hints, soundness / reflexivity / transitivity of one level of `subBody`
@@ -102,5 +103,672 @@ theorem zipAnyE_true {f : DHint → DHint → R} : ∀ {as bs : List DHint}, zip
     · exact ⟨(a, b), by simp, h⟩
     · obtain ⟨p, hp, hf⟩ := zipAnyE_true h
       exact ⟨p, by simp [hp], hf⟩
+
+/-! ### meaning -/
+
+variable (D : DWorld)
+
+/-- `x` is an instance of class `o` (a NewType's fabricated class stands for its alias) -/
+def inst (x : Obj) (o : Nat) : Bool := D.W.sub x.cls ((D.ntParent o).getD o)
+
+theorem dsat_cls (c : Nat) (x : Obj) : dsat D (.cls c) x = inst D x c := by
+  simp [dsat, toHint, sat, inst]
+
+theorem inst_mono (hD : D.Wf) {x : Obj} {c d : Nat} (hi : inst D x c = true) (hs : D.W.sub c d = true) :
+    inst D x d = true := by
+  unfold inst at *
+  cases hc : D.ntParent c with
+  | none =>
+    cases hd : D.ntParent d with
+    | none => simp only [hc, Option.getD_none] at hi ⊢; exact hD.sub_trans _ _ _ hi hs
+    | some q =>
+      have := hD.nt_leaf d q hd c hs
+      subst this
+      rw [hc] at hd; cases hd
+  | some p =>
+    cases hd : D.ntParent d with
+    | none =>
+      simp only [hc, Option.getD_none, Option.getD_some] at hi ⊢
+      have h1 := hD.nt_sub c p hc d
+      rw [hs] at h1
+      have : d ≠ c := by intro e; subst e; rw [hc] at hd; cases hd
+      have h2 : D.W.sub p d = true := by simpa [this] using h1.symm
+      exact hD.sub_trans _ _ _ hi h2
+    | some q =>
+      have := hD.nt_leaf d q hd c hs
+      subst this
+      rw [hc] at hd; cases hd
+      simpa [hc] using hi
+
+theorem inst_plain {x : Obj} {o : Nat} (h : D.ntParent o = none) : inst D x o = D.W.sub x.cls o := by
+  simp [inst, h]
+
+theorem semAll_mem : ∀ {hs : List DHint}, SemAll D hs → ∀ h ∈ hs, h.Sem D
+  | [], _, h, hm => by cases hm
+  | a :: as, hs, h, hm => by
+    simp only [SemAll] at hs
+    rcases List.mem_cons.mp hm with e | e
+    · subst e; exact hs.1
+    · exact semAll_mem hs.2 h e
+
+theorem satAny_toHints (x : Obj) : ∀ (hs : List DHint), satAny D.W (toHints D hs) x = true ↔ ∃ h ∈ hs, dsat D h x = true
+  | [] => by simp [toHints, satAny]
+  | a :: as => by simp [toHints, satAny, satAny_toHints x as, dsat]
+
+theorem dsat_union (hs : List DHint) (x : Obj) : dsat D (.union hs) x = satAny D.W (toHints D hs) x := by
+  simp [dsat, toHint, sat]
+theorem dsat_typevar (hs : List DHint) (x : Obj) : dsat D (.typevar hs) x = satAny D.W (toHints D hs) x := by
+  simp [dsat, toHint, sat]
+
+mutual
+theorem ign_sat (hD : D.Wf) : ∀ (h : DHint), h.Sem D → ign D h = true → ∀ x, dsat D h x = true
+  | .any, hs, _, _ => by simp [DHint.Sem] at hs
+  | .cls c, _, hi, x => by
+    rw [dsat_cls]
+    simp only [ign, Bool.or_eq_true, beq_iff_eq] at hi
+    rcases hi with e | e
+    · subst e; simp [inst, hD.nt_obj, hD.obj_top]
+    · simp [inst, e, hD.obj_top]
+  | .union hs, hs', hi, x => by
+    rw [dsat_union]
+    simp only [DHint.Sem] at hs'
+    simp only [ign] at hi
+    exact ignAny_sat hD hs hs'.2 hi x
+  | .typevar hs, hs', hi, x => by
+    rw [dsat_typevar]
+    simp only [DHint.Sem] at hs'
+    simp only [ign] at hi
+    exact ignAll_sat hD hs hs'.1 hs'.2 hi x
+  | .annotated h _, hs, hi, x => by
+    simp only [DHint.Sem] at hs
+    simp only [ign] at hi
+    have := ign_sat hD h hs hi x
+    simpa [dsat, toHint] using this
+  | .literal _, _, hi, _ => by simp [ign] at hi
+  | .tupleFixed _, _, hi, _ => by simp [ign] at hi
+  | .tupleVar _, _, hi, _ => by simp [ign] at hi
+  | .cont _ _ _, _, hi, _ => by simp [ign] at hi
+  | .mapping _ _ _, _, hi, _ => by simp [ign] at hi
+  | .callable _ _ _ _, _, hi, _ => by simp [ign] at hi
+theorem ignAny_sat (hD : D.Wf) : ∀ (hs : List DHint), SemAll D hs → ignAny D hs = true → ∀ x, satAny D.W (toHints D hs) x = true
+  | [], _, hi, _ => by simp [ignAny] at hi
+  | h :: hs, hs', hi, x => by
+    simp only [SemAll] at hs'
+    simp only [ignAny, Bool.or_eq_true] at hi
+    simp only [toHints, satAny, Bool.or_eq_true]
+    rcases hi with hi | hi
+    · left; exact ign_sat hD h hs'.1 hi x
+    · right; exact ignAny_sat hD hs hs'.2 hi x
+theorem ignAll_sat (hD : D.Wf) : ∀ (hs : List DHint), hs ≠ [] → SemAll D hs → ignAll D hs = true → ∀ x, satAny D.W (toHints D hs) x = true
+  | [], hne, _, _, _ => by simp at hne
+  | h :: hs, _, hs', hi, x => by
+    simp only [SemAll] at hs'
+    simp only [ignAll, Bool.and_eq_true] at hi
+    simp only [toHints, satAny, Bool.or_eq_true]
+    left; exact ign_sat hD h hs'.1 hi.1 x
+end
+
+theorem wf_mapping_len {x : Obj} (hx : x.wf D.W = true) (hm : D.W.mapping x.cls = true) :
+    x.vals.length = x.items.length := by
+  cases x with
+  | mk c a items vals attrs =>
+    simp only [Obj.wf, Bool.and_eq_true, Bool.or_eq_true, Bool.not_eq_true', beq_iff_eq] at hx
+    simp only [Obj.cls] at hm
+    simp only [Obj.vals, Obj.items]
+    rcases hx.1.1.1.1 with h | h
+    · rw [hm] at h; cases h
+    · exact h
+
+/-- **head lemma**: a branch whose arguments are all ignorable means "instance of its origin" -/
+theorem head_sound (hD : D.Wf) : ∀ (bj : DHint), bj.Sem D → argsIgn D bj = true → ∀ x, x.wf D.W = true →
+    inst D x (origin bj) = true → dsat D bj x = true
+  | .any, hs, _, _, _, _ => by simp [DHint.Sem] at hs
+  | .cls c, _, _, x, _, hi => by rw [dsat_cls]; exact hi
+  | .union hs, hs', ha, x, _, _ => by
+    rw [dsat_union]
+    simp only [DHint.Sem] at hs'
+    exact ignAll_sat D hD hs hs'.1 hs'.2 (by simpa [argsIgn, children] using ha) x
+  | .typevar hs, hs', ha, x, _, _ => by
+    rw [dsat_typevar]
+    simp only [DHint.Sem] at hs'
+    exact ignAll_sat D hD hs hs'.1 hs'.2 (by simpa [argsIgn, children] using ha) x
+  | .literal _, _, ha, _, _, _ => by simp [argsIgn] at ha
+  | .annotated _ _, _, ha, _, _, _ => by simp [argsIgn] at ha
+  | .tupleFixed _, _, ha, _, _, _ => by simp [argsIgn] at ha
+  | .tupleVar h, hs, ha, x, _, hi => by
+    simp only [DHint.Sem] at hs
+    simp only [argsIgn, children, ignAll, Bool.and_true] at ha
+    simp only [origin, inst_plain D hD.nt_tuple] at hi
+    simp only [dsat, toHint, sat, hi, Bool.true_and, List.all_eq_true]
+    intro y _
+    exact ign_sat D hD h hs ha y
+  | .cont k o h, hs, ha, x, _, hi => by
+    simp only [DHint.Sem] at hs
+    simp only [argsIgn, children, ignAll, Bool.and_true] at ha
+    simp only [origin, inst_plain D hs.2.1] at hi
+    have hall : x.items.all (fun y => sat D.W (toHint D h) y) = true := by
+      simp only [List.all_eq_true]; intro y _; exact ign_sat D hD h hs.1 ha y
+    cases k <;> simp [dsat, toHint, sat, hi, hall]
+  | .mapping o k v, hs, ha, x, hx, hi => by
+    simp only [DHint.Sem] at hs
+    simp only [argsIgn, children, ignAll, Bool.and_true, Bool.and_eq_true] at ha
+    simp only [origin, inst_plain D hs.2.2.1] at hi
+    have hlen := wf_mapping_len D hx (hs.2.2.2 _ hi)
+    have h1 : x.items.all (fun y => sat D.W (toHint D k) y) = true := by
+      simp only [List.all_eq_true]; intro y _; exact ign_sat D hD k hs.1 ha.1 y
+    have h2 : x.vals.all (fun y => sat D.W (toHint D v) y) = true := by
+      simp only [List.all_eq_true]; intro y _; exact ign_sat D hD v hs.2.1 ha.2 y
+    simp [dsat, toHint, sat, hi, hlen, h1, h2]
+  | .callable _ _ _ _, hs, _, _, _, _ => by simp [DHint.Sem] at hs
+
+/-! ### soundness of one level -/
+
+/-- `le` answers `True` only for pairs whose meanings are included -/
+def SoundRel (le : DHint → DHint → R) : Prop :=
+  ∀ a b, a.Sem D → b.Sem D → le a b = .ok true → ∀ x, x.wf D.W = true → dsat D a x = true → dsat D b x = true
+
+theorem sem_branch {b bj : DHint} (hb : b.Sem D) (hm : bj ∈ branches b) : bj.Sem D := by
+  cases b <;> simp only [branches, List.mem_singleton] at hm <;> try (subst hm; exact hb)
+  · simp only [DHint.Sem] at hb; exact semAll_mem D hb.2 _ hm
+  · simp only [DHint.Sem] at hb; exact semAll_mem D hb.2 _ hm
+
+theorem dsat_of_branch {b bj : DHint} {x : Obj} (hm : bj ∈ branches b) (hs : dsat D bj x = true) : dsat D b x = true := by
+  cases b <;> simp only [branches, List.mem_singleton] at hm <;> try (subst hm; exact hs)
+  · rw [dsat_union, satAny_toHints]; exact ⟨bj, hm, hs⟩
+  · rw [dsat_typevar, satAny_toHints]; exact ⟨bj, hm, hs⟩
+
+/-- the items part of a one-argument container's meaning -/
+def contItems (k : CKind) (h : DHint) (x : Obj) : Bool :=
+  match k with
+  | .quasi => !D.W.sub x.cls cCollection || x.items.all (fun y => dsat D h y)
+  | _ => x.items.all (fun y => dsat D h y)
+
+theorem dsat_cont (k : CKind) (o : Nat) (h : DHint) (x : Obj) :
+    dsat D (.cont k o h) x = (D.W.sub x.cls o && contItems D k h x) := by
+  cases k <;> simp [dsat, toHint, sat, contItems]
+
+theorem dsat_tupleVar (h : DHint) (x : Obj) :
+    dsat D (.tupleVar h) x = (D.W.sub x.cls cTuple && x.items.all (fun y => dsat D h y)) := by
+  simp [dsat, toHint, sat]
+
+theorem dsat_tupleFixed (hs : List DHint) (x : Obj) :
+    dsat D (.tupleFixed hs) x = (D.W.sub x.cls cTuple && satZip D.W (toHints D hs) x.items) := by
+  simp [dsat, toHint, sat]
+
+theorem dsat_mapping (o : Nat) (k v : DHint) (x : Obj) :
+    dsat D (.mapping o k v) x = (D.W.sub x.cls o && x.vals.length == x.items.length &&
+      x.items.all (fun y => dsat D k y) && x.vals.all (fun y => dsat D v y)) := by
+  simp [dsat, toHint, sat]
+
+theorem dsat_annotated (h : DHint) (md : List Nat) (x : Obj) : dsat D (.annotated h md) x = dsat D h x := by
+  simp [dsat, toHint]
+
+theorem dsat_literal (ms : List (Nat × Atom)) (x : Obj) :
+    dsat D (.literal ms) x = ms.any (fun l => x.cls == l.1 && x.atom == l.2) := by
+  simp [dsat, toHint, sat]
+
+theorem all_sound {h h' : DHint} {ys : List Obj} (hw : wfList D.W ys = true)
+    (himp : ∀ y, y.wf D.W = true → dsat D h y = true → dsat D h' y = true)
+    (ha : ys.all (fun y => dsat D h y) = true) : ys.all (fun y => dsat D h' y) = true := by
+  simp only [List.all_eq_true] at ha ⊢
+  intro y hy
+  exact himp y (wfList_mem hw y hy) (ha y hy)
+
+/-- fixed tuple against variadic tuple -/
+theorem satZip_all {hh : DHint} : ∀ (as : List DHint) (ys : List Obj), wfList D.W ys = true →
+    (∀ a ∈ as, ∀ y, y.wf D.W = true → dsat D a y = true → dsat D hh y = true) →
+    satZip D.W (toHints D as) ys = true → ys.all (fun y => dsat D hh y) = true
+  | [], [], _, _, _ => by simp
+  | [], _ :: _, _, _, h => by simp [toHints, satZip] at h
+  | _ :: _, [], _, _, _ => by simp
+  | a :: as, y :: ys, hw, himp, h => by
+    simp only [wfList, Bool.and_eq_true] at hw
+    simp only [toHints, satZip, Bool.and_eq_true] at h
+    simp only [List.all_cons, Bool.and_eq_true]
+    exact ⟨himp a (by simp) y hw.1 h.1, satZip_all as ys hw.2 (fun a' ha' => himp a' (by simp [ha'])) h.2⟩
+
+/-- fixed tuple against fixed tuple -/
+theorem satZip_zip : ∀ (as bs : List DHint) (ys : List Obj), as.length = bs.length → wfList D.W ys = true →
+    (∀ p ∈ as.zip bs, ∀ y, y.wf D.W = true → dsat D p.1 y = true → dsat D p.2 y = true) →
+    satZip D.W (toHints D as) ys = true → satZip D.W (toHints D bs) ys = true
+  | [], [], ys, _, _, _, h => by simpa [toHints] using h
+  | [], _ :: _, _, hl, _, _, _ => by simp at hl
+  | _ :: _, [], _, hl, _, _, _ => by simp at hl
+  | a :: as, b :: bs, [], _, _, _, h => by simp [toHints, satZip] at h
+  | a :: as, b :: bs, y :: ys, hl, hw, himp, h => by
+    simp only [wfList, Bool.and_eq_true] at hw
+    simp only [toHints, satZip, Bool.and_eq_true] at h ⊢
+    exact ⟨himp (a, b) (by simp) y hw.1 h.1,
+      satZip_zip as bs ys (by simpa using hl) hw.2 (fun p hp => himp p (by simp [hp])) h.2⟩
+
+theorem litSubset_sound {ms ms' : List (Nat × Atom)} (h : litSubset ms ms' = true) (x : Obj)
+    (hs : dsat D (.literal ms) x = true) : dsat D (.literal ms') x = true := by
+  rw [dsat_literal] at hs ⊢
+  simp only [List.any_eq_true, Bool.and_eq_true, beq_iff_eq] at hs ⊢
+  obtain ⟨m, hm, h1, h2⟩ := hs
+  simp only [litSubset, List.all_eq_true, litIn, List.any_eq_true, Bool.and_eq_true, beq_iff_eq] at h
+  obtain ⟨m', hm', e1, e2⟩ := h m hm
+  exact ⟨m', hm', by rw [h1, e1], by rw [h2, e2]⟩
+
+/-- the base `_is_subhint_branch` is sound for the subscripted wrappers -/
+theorem brBase_sound (hD : D.Wf) (le : DHint → DHint → R) (hle : SoundRel D le) (a bj : DHint)
+    (ha : a.Sem D) (hb : bj.Sem D) (hk : instOf a a = true ∨ a.isLiteral = true)
+    (h : brBase D le a bj = .ok true) (x : Obj) (hx : x.wf D.W = true)
+    (hi : inst D x (origin a) = true) (hs : dsat D a x = true) : dsat D bj x = true := by
+  unfold brBase at h
+  split at h
+  · cases h
+  rename_i hsub
+  simp only [Bool.not_eq_true', Bool.not_eq_false] at hsub
+  have hsub : D.W.sub (origin a) (origin bj) = true := by simpa using hsub
+  split at h
+  · rename_i hig
+    exact head_sound D hD bj hb hig x hx (inst_mono D hD hi hsub)
+  split at h
+  · cases h
+  rename_i hinst
+  have hinst : instOf bj a = true := by simpa using hinst
+  split at h
+  · cases h
+  rename_i hlen
+  have hlen : (children a).length = (children bj).length := by simpa using hlen
+  -- structural comparison
+  cases a with
+  | cont k o ha' =>
+    simp only [DHint.Sem] at ha
+    rw [dsat_cont, Bool.and_eq_true] at hs
+    cases bj with
+    | cont k' o' hb' =>
+      simp only [DHint.Sem] at hb
+      simp only [children, zipAllE, andE_true, and_true] at h
+      simp only [origin] at hsub
+      have hso : D.W.sub x.cls o' = true := hD.sub_trans _ _ _ hs.1 hsub
+      rw [dsat_cont, Bool.and_eq_true]
+      refine ⟨hso, ?_⟩
+      have himp := fun y hy => hle ha' hb' ha.1 hb.1 h y hy
+      have hitems : ∀ (hall : x.items.all (fun y => dsat D ha' y) = true), x.items.all (fun y => dsat D hb' y) = true :=
+        fun hall => all_sound D (Obj.wf_items hx) himp hall
+      have hcoll : k' = .quasi ∨ D.W.sub x.cls cCollection = true := by
+        rcases hb.2.2 with e | e
+        · exact Or.inl e
+        · exact Or.inr (e _ hso)
+      cases k <;> cases k' <;> simp only [contItems, Bool.or_eq_true, Bool.not_eq_true'] at hs ⊢
+      all_goals first
+        | exact hitems hs.2
+        | exact Or.inr (hitems hs.2)
+        | (rcases hs.2 with e | e
+           · first
+             | exact Or.inl e
+             | (rcases hcoll with e' | e'
+                · cases e'
+                · rw [e'] at e; cases e)
+           · first
+             | exact Or.inr (hitems e)
+             | exact hitems e)
+    | mapping o' k' v' => simp [children] at hlen
+    | tupleVar hb' =>
+      simp only [DHint.Sem] at hb
+      simp only [children, zipAllE, andE_true, and_true] at h
+      simp only [origin] at hsub
+      have hso : D.W.sub x.cls cTuple = true := hD.sub_trans _ _ _ hs.1 hsub
+      rw [dsat_tupleVar, Bool.and_eq_true]
+      refine ⟨hso, ?_⟩
+      have himp := fun y hy => hle ha' hb' ha.1 hb h y hy
+      have hcoll := hD.tuple_coll _ hso
+      cases k <;> simp only [contItems, Bool.or_eq_true, Bool.not_eq_true'] at hs
+      · exact all_sound D (Obj.wf_items hx) himp hs.2
+      · exact all_sound D (Obj.wf_items hx) himp hs.2
+      · rcases hs.2 with e | e
+        · rw [hcoll] at e; cases e
+        · exact all_sound D (Obj.wf_items hx) himp e
+    | _ => simp [instOf] at hinst
+  | mapping o ka va =>
+    simp only [DHint.Sem] at ha
+    rw [dsat_mapping] at hs
+    simp only [Bool.and_eq_true, beq_iff_eq] at hs
+    cases bj with
+    | cont k' o' hb' => simp [children] at hlen
+    | tupleVar hb' => simp [children] at hlen
+    | mapping o' kb vb =>
+      simp only [DHint.Sem] at hb
+      simp only [children, zipAllE, andE_true, and_true] at h
+      simp only [origin] at hsub
+      rw [dsat_mapping]
+      simp only [Bool.and_eq_true, beq_iff_eq]
+      refine ⟨⟨⟨hD.sub_trans _ _ _ hs.1.1.1 hsub, hs.1.1.2⟩, ?_⟩, ?_⟩
+      · exact all_sound D (Obj.wf_items hx) (fun y hy => hle ka kb ha.1 hb.1 h.1 y hy) hs.1.2
+      · exact all_sound D (Obj.wf_vals hx) (fun y hy => hle va vb ha.2.1 hb.2.1 h.2 y hy) hs.2
+    | _ => simp [instOf] at hinst
+  | tupleVar ha' =>
+    simp only [DHint.Sem] at ha
+    rw [dsat_tupleVar, Bool.and_eq_true] at hs
+    cases bj with
+    | tupleVar hb' =>
+      simp only [DHint.Sem] at hb
+      simp only [children, zipAllE, andE_true, and_true] at h
+      rw [dsat_tupleVar, Bool.and_eq_true]
+      exact ⟨hs.1, all_sound D (Obj.wf_items hx) (fun y hy => hle ha' hb' ha hb h y hy) hs.2⟩
+    | _ => simp [instOf] at hinst
+  | literal ms => cases bj <;> simp [instOf] at hinst
+  | _ => rcases hk with hk | hk <;> simp [instOf, isLiteral] at hk
+
+/-- `self._is_subhint_branch(branch)` is sound for every wrapper class -/
+theorem brLe_sound (hD : D.Wf) (le eq : DHint → DHint → R) (hle : SoundRel D le) (a bj : DHint)
+    (ha : a.Sem D) (hb : bj.Sem D) (h : brLe D le eq a bj = .ok true) (x : Obj) (hx : x.wf D.W = true)
+    (hs : dsat D a x = true) : dsat D bj x = true := by
+  cases a with
+  | any => simp [DHint.Sem] at ha
+  | callable _ _ _ _ => simp [DHint.Sem] at ha
+  | union _ => simp [brLe] at h
+  | typevar _ => simp [brLe] at h
+  | cls c =>
+    simp only [brLe, Except.ok.injEq, Bool.and_eq_true] at h
+    rw [dsat_cls] at hs
+    exact head_sound D hD bj hb h.1 x hx (inst_mono D hD hs h.2)
+  | cont k o h' =>
+    have hi : inst D x (origin (.cont k o h')) = true := by
+      simp only [DHint.Sem] at ha
+      rw [dsat_cont, Bool.and_eq_true] at hs
+      simpa [origin, inst_plain D ha.2.1] using hs.1
+    exact brBase_sound D hD le hle _ bj ha hb (Or.inl rfl) (by simpa [brLe] using h) x hx hi hs
+  | mapping o k v =>
+    have hi : inst D x (origin (.mapping o k v)) = true := by
+      simp only [DHint.Sem] at ha
+      rw [dsat_mapping] at hs
+      simp only [Bool.and_eq_true] at hs
+      simpa [origin, inst_plain D ha.2.2.1] using hs.1.1.1
+    exact brBase_sound D hD le hle _ bj ha hb (Or.inl rfl) (by simpa [brLe] using h) x hx hi hs
+  | tupleVar h' =>
+    have hi : inst D x (origin (.tupleVar h')) = true := by
+      rw [dsat_tupleVar, Bool.and_eq_true] at hs
+      simpa [origin, inst_plain D hD.nt_tuple] using hs.1
+    exact brBase_sound D hD le hle _ bj ha hb (Or.inl rfl) (by simpa [brLe] using h) x hx hi hs
+  | literal ms =>
+    cases bj with
+    | literal ms' =>
+      simp only [brLe, Except.ok.injEq] at h
+      exact litSubset_sound D h x hs
+    | _ =>
+      simp only [brLe, guardE] at h
+      exact brBase_sound D hD le hle _ _ ha hb (Or.inr rfl) h x hx (by simp [origin, inst, hD.nt_obj, hD.obj_top]) hs
+  | annotated h' md =>
+    simp only [DHint.Sem] at ha
+    rw [dsat_annotated] at hs
+    cases bj with
+    | annotated hb' md' =>
+      simp only [DHint.Sem] at hb
+      simp only [brLe, guardE] at h
+      rw [dsat_annotated]
+      have : le h' hb' = .ok true := by
+        cases hl : le h' hb' with
+        | error e => rw [hl] at h; cases h
+        | ok b => cases b with
+          | true => rfl
+          | false => rw [hl] at h; cases h
+      exact hle h' hb' ha hb this x hx hs
+    | _ =>
+      simp only [brLe, guardE] at h
+      exact hle h' _ ha hb h x hx hs
+  | tupleFixed as =>
+    simp only [DHint.Sem] at ha
+    rw [dsat_tupleFixed, Bool.and_eq_true] at hs
+    simp only [brLe, guardE] at h
+    split at h
+    · rename_i hig
+      simp only [Except.ok.injEq] at h
+      exact head_sound D hD bj hb hig x hx (inst_mono D hD (by simpa [inst_plain D hD.nt_tuple] using hs.1) h)
+    · cases bj with
+      | tupleVar hb' =>
+        simp only [DHint.Sem] at hb
+        simp only [allE_true] at h
+        rw [dsat_tupleVar, Bool.and_eq_true]
+        refine ⟨hs.1, satZip_all D as x.items (Obj.wf_items hx) ?_ hs.2⟩
+        intro a haa y hy
+        exact hle a hb' (semAll_mem D ha a haa) hb (h a haa) y hy
+      | tupleFixed bs =>
+        simp only [DHint.Sem] at hb
+        simp only at h
+        split at h
+        · cases h
+        rename_i hlen
+        have hlen : as.length = bs.length := by simpa using hlen
+        rw [zipAllE_true hlen] at h
+        rw [dsat_tupleFixed, Bool.and_eq_true]
+        refine ⟨hs.1, satZip_zip D as bs x.items hlen (Obj.wf_items hx) ?_ hs.2⟩
+        intro p hp y hy
+        exact hle p.1 p.2 (semAll_mem D ha _ (List.of_mem_zip hp).1) (semAll_mem D hb _ (List.of_mem_zip hp).2) (h p hp) y hy
+      | _ => simp at h
+
+theorem baseSub_sound (hD : D.Wf) (le eq : DHint → DHint → R) (hle : SoundRel D le) (a b : DHint)
+    (ha : a.Sem D) (hb : b.Sem D) (h : baseSub D le eq a b = .ok true) (x : Obj) (hx : x.wf D.W = true)
+    (hs : dsat D a x = true) : dsat D b x = true := by
+  obtain ⟨bj, hm, hf⟩ := anyE_true h
+  have hbj := sem_branch D hb hm
+  have hna : bj.isAny = false := by cases bj <;> simp_all [isAny, DHint.Sem]
+  simp only [hna, Bool.false_eq_true, ↓reduceIte] at hf
+  exact dsat_of_branch D hm (brLe_sound D hD le eq hle a bj ha hbj hf x hx hs)
+
+theorem subBody_sound (hD : D.Wf) (le eq : DHint → DHint → R) (hle : SoundRel D le) :
+    SoundRel D (subBody D le eq) := by
+  intro a b ha hb h x hx hs
+  cases a with
+  | union as =>
+    simp only [subBody, allE_true] at h
+    rw [dsat_union, satAny_toHints] at hs
+    obtain ⟨ai, hm, hsi⟩ := hs
+    simp only [DHint.Sem] at ha
+    have hai := semAll_mem D ha.2 ai hm
+    have := h ai hm
+    split at this
+    · obtain ⟨bj, hmb, hf⟩ := anyE_true this
+      exact dsat_of_branch D hmb (hle ai bj hai (sem_branch D hb hmb) hf x hx hsi)
+    · exact hle ai b hai hb this x hx hsi
+  | typevar as =>
+    simp only [subBody, allE_true] at h
+    rw [dsat_typevar, satAny_toHints] at hs
+    obtain ⟨ai, hm, hsi⟩ := hs
+    simp only [DHint.Sem] at ha
+    have hai := semAll_mem D ha.2 ai hm
+    have := h ai hm
+    split at this
+    · obtain ⟨bj, hmb, hf⟩ := anyE_true this
+      exact dsat_of_branch D hmb (hle ai bj hai (sem_branch D hb hmb) hf x hx hsi)
+    · exact hle ai b hai hb this x hx hsi
+  | literal ms =>
+    cases b with
+    | literal ms' =>
+      simp only [subBody, Except.ok.injEq] at h
+      exact litSubset_sound D h x hs
+    | _ =>
+      simp only [subBody, orE_true] at h
+      rcases h with h | ⟨_, h⟩
+      · rw [allE_true] at h
+        have hs' := hs
+        rw [dsat_literal] at hs'
+        simp only [List.any_eq_true, Bool.and_eq_true, beq_iff_eq] at hs'
+        obtain ⟨m, hm, h1, _⟩ := hs'
+        refine hle (.cls m.1) _ (by simp [DHint.Sem]) hb (h m hm) x hx ?_
+        rw [dsat_cls, inst, h1]
+        cases hp : D.ntParent m.1 with
+        | none => simp [hD.sub_refl]
+        | some p => simp [hD.nt_sub m.1 p hp, hD.sub_refl]
+      · exact baseSub_sound D hD le eq hle _ _ ha hb h x hx hs
+  | any => simp [DHint.Sem] at ha
+  | cls c => exact baseSub_sound D hD le eq hle _ _ ha hb (by simpa [subBody] using h) x hx hs
+  | annotated _ _ => exact baseSub_sound D hD le eq hle _ _ ha hb (by simpa [subBody] using h) x hx hs
+  | tupleFixed _ => exact baseSub_sound D hD le eq hle _ _ ha hb (by simpa [subBody] using h) x hx hs
+  | tupleVar _ => exact baseSub_sound D hD le eq hle _ _ ha hb (by simpa [subBody] using h) x hx hs
+  | cont _ _ _ => exact baseSub_sound D hD le eq hle _ _ ha hb (by simpa [subBody] using h) x hx hs
+  | mapping _ _ _ => exact baseSub_sound D hD le eq hle _ _ ha hb (by simpa [subBody] using h) x hx hs
+  | callable _ _ _ _ => simp [DHint.Sem] at ha
+
+theorem leF_sound (hD : D.Wf) : ∀ n, SoundRel D (leF D n)
+  | 0 => by intro a b _ _ h; simp [leF] at h
+  | n + 1 => by
+    intro a b ha hb h x hx hs
+    have hna : a.isAny = false := by cases a <;> simp_all [isAny, DHint.Sem]
+    have hnb : b.isAny = false := by cases b <;> simp_all [isAny, DHint.Sem]
+    simp only [leF, hna, hnb, Bool.or_self, Bool.false_eq_true, ↓reduceIte] at h
+    exact subBody_sound D hD _ _ (leF_sound hD n) a b ha hb h x hx hs
+
+/-! ### reflexivity of one level -/
+
+/-- neither `is_subhint(a, a)` nor `TypeHint(a) == TypeHint(a)` answers `False` -/
+def ReflRel (le eq : DHint → DHint → R) : Prop := (∀ a, le a a ≠ .ok false) ∧ (∀ a, eq a a ≠ .ok false)
+
+theorem zipAllE_self {f : DHint → DHint → R} : ∀ (l : List DHint), (∀ a ∈ l, f a a ≠ .ok false) → zipAllE f l l ≠ .ok false
+  | [], _ => by simp [zipAllE]
+  | a :: l, h => by
+    intro hz
+    simp only [zipAllE, andE_false] at hz
+    rcases hz with hz | ⟨_, hz⟩
+    · exact h a (by simp) hz
+    · exact zipAllE_self l (fun b hb => h b (by simp [hb])) hz
+
+theorem zipAnyE_self {f : DHint → DHint → R} : ∀ (l : List DHint), (∀ a ∈ l, f a a ≠ .ok true) → zipAnyE f l l ≠ .ok true
+  | [], _ => by simp [zipAnyE]
+  | a :: l, h => by
+    intro hz
+    simp only [zipAnyE, orE_true] at hz
+    rcases hz with hz | ⟨_, hz⟩
+    · exact h a (by simp) hz
+    · exact zipAnyE_self l (fun b hb => h b (by simp [hb])) hz
+
+theorem gt_self {le eq : DHint → DHint → R} (h : ∀ a, eq a a ≠ .ok false) (p : DHint) : gt le eq p p ≠ .ok true := by
+  intro hg
+  simp only [gt, andE_true] at hg
+  have := h p
+  cases he : eq p p with
+  | error e => rw [he] at hg; simp [notE] at hg
+  | ok b => cases b with
+    | false => exact this he
+    | true => rw [he] at hg; simp [notE] at hg
+
+theorem litSubset_self (ms : List (Nat × Atom)) : litSubset ms ms = true := by
+  simp only [litSubset, List.all_eq_true, litIn, List.any_eq_true, Bool.and_eq_true, beq_iff_eq]
+  intro m hm
+  exact ⟨m, hm, rfl, rfl⟩
+
+theorem brBase_self (hD : D.Wf) {le : DHint → DHint → R} (hle : ∀ a, le a a ≠ .ok false) (a : DHint)
+    (hk : instOf a a = true) : brBase D le a a ≠ .ok false := by
+  unfold brBase
+  simp only [hD.sub_refl, Bool.not_true, Bool.false_eq_true, ↓reduceIte, hk, bne_self_eq_false]
+  split
+  · simp
+  · exact zipAllE_self _ (fun b _ => hle b)
+
+theorem brLe_self (hD : D.Wf) {le eq : DHint → DHint → R} (h : ReflRel le eq) (a : DHint) (hu : a.isUnionLike = false)
+    (hn : a.isAny = false) : brLe D le eq a a ≠ .ok false := by
+  cases a with
+  | any => simp [isAny] at hn
+  | union _ => simp [isUnionLike] at hu
+  | typevar _ => simp [isUnionLike] at hu
+  | cls c => simp [brLe, argsIgn, origin, hD.sub_refl]
+  | cont k o h' => simpa [brLe] using brBase_self D hD h.1 _ rfl
+  | mapping o k v => simpa [brLe] using brBase_self D hD h.1 _ rfl
+  | tupleVar h' => simpa [brLe] using brBase_self D hD h.1 _ rfl
+  | literal ms => simp [brLe, litSubset_self]
+  | tupleFixed as =>
+    simp only [brLe, argsIgn, Bool.false_eq_true, ↓reduceIte, bne_self_eq_false]
+    exact zipAllE_self _ (fun b _ => h.1 b)
+  | annotated h' md =>
+    simp only [brLe, guardE]
+    have := h.1 h'
+    cases hl : le h' h' with
+    | error e => simp
+    | ok b => cases b with
+      | false => exact absurd hl this
+      | true => simp
+  | callable o ell ps r =>
+    simp only [brLe]
+    split
+    · simp [origin, hD.sub_refl]
+    · simp only [brCallable]
+      have hr : (if (!ign D r) = true then (if ign D r = true then (Except.ok false : R) else le r r) else Except.ok true) ≠ .ok false := by
+        cases hi : ign D r with
+        | true => simp
+        | false => simpa using h.1 r
+      cases ell with
+      | true => simpa using hr
+      | false =>
+        simp only [Bool.false_eq_true, ↓reduceIte, bne_self_eq_false]
+        have hz := zipAnyE_self (f := gt le eq) (children (.callable o false ps r)).dropLast (fun p _ => gt_self h.2 p)
+        cases hzz : zipAnyE (gt le eq) (children (.callable o false ps r)).dropLast (children (.callable o false ps r)).dropLast with
+        | error e => simp
+        | ok b => cases b with
+          | true => exact absurd hzz hz
+          | false => simpa using hr
+
+theorem subBody_self (hD : D.Wf) {le eq : DHint → DHint → R} (h : ReflRel le eq) (a : DHint) (hn : a.isAny = false) :
+    subBody D le eq a a ≠ .ok false := by
+  have base : a.isUnionLike = false → baseSub D le eq a a ≠ .ok false := by
+    intro hu
+    have hb : branches a = [a] := by cases a <;> simp_all [branches, isUnionLike]
+    simp only [baseSub, hb, anyE_single, hn, Bool.false_eq_true, ↓reduceIte]
+    exact brLe_self D hD h a hu hn
+  cases a with
+  | union as =>
+    intro hf
+    simp only [subBody, isUnionLike, ↓reduceIte, branches] at hf
+    obtain ⟨ai, hm, hfi⟩ := allE_false hf
+    exact h.1 ai (anyE_false.mp hfi ai hm)
+  | typevar as =>
+    intro hf
+    simp only [subBody, isUnionLike, ↓reduceIte, branches] at hf
+    obtain ⟨ai, hm, hfi⟩ := allE_false hf
+    exact h.1 ai (anyE_false.mp hfi ai hm)
+  | literal ms => simp [subBody, litSubset_self]
+  | any => simp [isAny] at hn
+  | cls c => simpa [subBody] using base rfl
+  | annotated _ _ => simpa [subBody] using base rfl
+  | tupleFixed _ => simpa [subBody] using base rfl
+  | tupleVar _ => simpa [subBody] using base rfl
+  | cont _ _ _ => simpa [subBody] using base rfl
+  | mapping _ _ _ => simpa [subBody] using base rfl
+  | callable _ _ _ _ => simpa [subBody] using base rfl
+
+theorem eqBody_self {le eq : DHint → DHint → R} (h : ReflRel le eq) (x : DHint) : eqBody D le eq x x ≠ .ok false := by
+  have base : andE (le x x) (le x x) ≠ .ok false := by
+    intro hf
+    rcases andE_false.mp hf with hf | ⟨_, hf⟩ <;> exact h.1 x hf
+  have sub : sameSign x x = true → (if (argsIgn D x && argsIgn D x) = true then (Except.ok (origin x == origin x) : R)
+      else if (!sameSign x x || (children x).length != (children x).length) = true then .ok false
+      else zipAllE eq (children x) (children x)) ≠ .ok false := by
+    intro hs
+    split
+    · simp
+    · simp only [hs, Bool.not_true, bne_self_eq_false, Bool.or_self, Bool.false_eq_true, ↓reduceIte]
+      exact zipAllE_self _ (fun b _ => h.2 b)
+  cases x with
+  | cont k o h' => simpa [eqBody] using sub (by simp [sameSign])
+  | mapping o k v => simpa [eqBody] using sub (by simp [sameSign])
+  | tupleVar h' => simpa [eqBody] using sub (by simp [sameSign])
+  | annotated h' md =>
+    intro hf
+    simp only [eqBody, andE_false] at hf
+    rcases hf with hf | ⟨_, hf⟩
+    · exact h.2 h' hf
+    · simp at hf
+  | any => simpa [eqBody] using base
+  | cls _ => simpa [eqBody] using base
+  | union _ => simpa [eqBody] using base
+  | typevar _ => simpa [eqBody] using base
+  | literal _ => simpa [eqBody] using base
+  | tupleFixed _ => simpa [eqBody] using base
+  | callable _ _ _ _ => simpa [eqBody] using base
+
+theorem leF_refl (hD : D.Wf) : ∀ n, ReflRel (leF D n) (eqF D n)
+  | 0 => by constructor <;> intro a <;> simp [leF, eqF]
+  | n + 1 => by
+    have ih := leF_refl hD n
+    constructor
+    · intro a
+      simp only [leF]
+      cases ha : a.isAny with
+      | true => simp
+      | false => simpa using subBody_self D hD ih a ha
+    · intro a
+      simp only [eqF]
+      exact eqBody_self D ih a
 
 end BearVerif.Door
